@@ -221,6 +221,42 @@ async fn callback(
     r
 }
 
+/// The callback was *invoked*: logged at once, synchronously, by the callback function itself (the default
+/// build writes the callbacks in the explicit `fn ... -> impl Future` form, so this happens when the runtime
+/// calls the function, not when it first polls what the function returned). Dropping the guard without
+/// `finish` logs a cancellation (or a panic).
+pub struct Entered {
+    log: Log,
+    id: String,
+    cb: Cb,
+    version: u64,
+    done: bool,
+}
+impl Entered {
+    pub fn now(log: &Log, id: &str, cb: Cb, version: u64) -> Self {
+        log.push(id, &cb, EvKind::Enter, version);
+        Entered { log: log.clone(), id: id.to_string(), cb, version, done: false }
+    }
+}
+impl Drop for Entered {
+    fn drop(&mut self) {
+        if !self.done {
+            let k = if std::thread::panicking() { EvKind::Panicked } else { EvKind::Cancelled };
+            self.log.push(&self.id, &self.cb, k, self.version);
+        }
+    }
+}
+
+/// the asynchronous rest of a callback whose invocation was already logged
+pub async fn run_entered(mut g: Entered, steps: Vec<Step>, myself: ActorRef<PMsg>, version: &mut u64) -> Result<(), ActorProcessingErr> {
+    let (log, id, cb) = (g.log.clone(), g.id.clone(), g.cb.clone());
+    let r = run_steps(&steps, &myself, &log, &id, &cb, version).await;
+    g.version = *version;
+    g.done = true;
+    log.push(&id, &cb, if r.is_ok() { EvKind::ExitOk } else { EvKind::ExitErr }, *version);
+    r
+}
+
 pub fn describe_event(e: &SupervisionEvent) -> String {
     match e {
         SupervisionEvent::ActorStarted(c) => format!("Started({})", c.get_id()),
@@ -246,7 +282,57 @@ pub fn describe_event(e: &SupervisionEvent) -> String {
 #[derive(Default)]
 pub struct Probe;
 
-#[cfg_attr(feature = "alt", ractor::async_trait)]
+/// default build: the callbacks are written in the explicit form the trait declares (`fn .. -> impl Future`),
+/// with a synchronous prelude that logs the invocation; the alt build (async-trait) uses `async fn`
+#[cfg(not(feature = "alt"))]
+impl Actor for Probe {
+    type Msg = PMsg;
+    type State = ProbeState;
+    type Arguments = ProbeArgs;
+
+    fn pre_start(&self, myself: ActorRef<PMsg>, a: ProbeArgs) -> impl std::future::Future<Output = Result<ProbeState, ActorProcessingErr>> + Send {
+        let g = Entered::now(&a.log, &a.id, Cb::PreStart, 0);
+        async move {
+            let mut version = 0;
+            run_entered(g, a.prog.pre_start.clone(), myself, &mut version).await?;
+            Ok(ProbeState { id: a.id, prog: a.prog, log: a.log, version })
+        }
+    }
+    fn post_start(&self, myself: ActorRef<PMsg>, s: &mut ProbeState) -> impl std::future::Future<Output = Result<(), ActorProcessingErr>> + Send {
+        let g = Entered::now(&s.log, &s.id, Cb::PostStart, s.version);
+        let steps = s.prog.post_start.clone();
+        async move { run_entered(g, steps, myself, &mut s.version).await }
+    }
+    fn handle(&self, myself: ActorRef<PMsg>, m: PMsg, s: &mut ProbeState) -> impl std::future::Future<Output = Result<(), ActorProcessingErr>> + Send {
+        let tag = match &m {
+            PMsg::Do { tag, .. } | PMsg::Call { tag, .. } => *tag,
+        };
+        let g = Entered::now(&s.log, &s.id, Cb::Handle(tag), s.version);
+        async move {
+            match m {
+                PMsg::Do { steps, .. } => run_entered(g, steps, myself, &mut s.version).await,
+                PMsg::Call { tag, reply, steps } => {
+                    let r = run_entered(g, steps, myself, &mut s.version).await;
+                    let _ = reply.send(tag);
+                    r
+                }
+            }
+        }
+    }
+    fn handle_supervisor_evt(&self, myself: ActorRef<PMsg>, e: SupervisionEvent, s: &mut ProbeState) -> impl std::future::Future<Output = Result<(), ActorProcessingErr>> + Send {
+        let g = Entered::now(&s.log, &s.id, Cb::Sup(describe_event(&e)), s.version);
+        let steps = s.prog.sup.clone();
+        async move { run_entered(g, steps, myself, &mut s.version).await }
+    }
+    fn post_stop(&self, myself: ActorRef<PMsg>, s: &mut ProbeState) -> impl std::future::Future<Output = Result<(), ActorProcessingErr>> + Send {
+        let g = Entered::now(&s.log, &s.id, Cb::PostStop, s.version);
+        let steps = s.prog.post_stop.clone();
+        async move { run_entered(g, steps, myself, &mut s.version).await }
+    }
+}
+
+#[cfg(feature = "alt")]
+#[ractor::async_trait]
 impl Actor for Probe {
     type Msg = PMsg;
     type State = ProbeState;
